@@ -141,6 +141,80 @@ def slot_stress(gs):
     return gs
 
 
+def lj_scenario(rng):
+    """pair modules OUTSIDE the exact model whose OpenMP branch has its own copy-slot logic: LJ on a cross-species pair written in
+    colour order or reversed, one species with another integrator before / after its velocity-Verlet integrator (the two species'
+    records then differ).  Floating-point forces: serial and OpenMP runs are compared to 1e-9 relative."""
+    nA, nB = rng.randint(3, 6), rng.randint(3, 6)
+    parts, used = [], []
+    def place():
+        while True:
+            r = [F(rng.randint(4, 20), 8) for _ in range(3)]
+            if all(sum((a - b) ** 2 for a, b in zip(r, u)) >= F(1, 4) for u in used):
+                used.append(r); return r
+    extra = rng.choice(['A', 'B', 'A', 'B', 'A', 'B', None])
+    for sp, n in (('A', nA), ('B', nB)):
+        for _ in range(n):
+            p = {'species': sp, 'frozen': False, 'r': [symlib.rat(x) for x in place()], 'v': [symlib.rat(F(rng.randint(-2, 2), 8)) for _ in range(3)]}
+            if sp == extra: p['tags'] = {'q': symlib.rat(F(rng.randint(-4, 4), 4))}
+            parts.append(p)
+    rng.shuffle(parts)
+    order = ['A', 'B'] if rng.random() < 0.5 else ['B', 'A']
+    s1, s2 = (order[0], order[1]) if rng.random() < 0.4 else (order[1], order[0])
+    integ = []
+    for sp in order:
+        vv = ['IntegratorVelocityVerlet', {'species': sp, 'lambda': '1/2', 'mass': '1'}]
+        if sp == extra:
+            sc = ['IntegratorScalar', {'species': sp, 'scalar': 'q', 'symbol': 'q'}]
+            integ += [sc, vv] if rng.random() < 0.75 else [vv, sc]
+        else:
+            integ.append(vv)
+    mods = [['LJ', {'species1': s1, 'species2': s2, 'sigma': '0.5', 'epsilon': '0.25', 'cutoff': '1'}]]
+    if rng.random() < 0.5:
+        mods.append(['LJ', {'species1': order[0], 'species2': order[0], 'sigma': '0.5', 'epsilon': '0.125', 'cutoff': '1'}])
+    for a in order:
+        mods.append(['FPairVels', {'species1': a, 'species2': a, 'cutoff': '1', 'pairFactor': '0*[rij]'}])
+    return {'box': ['4', '4', '4'], 'periodic': [True, True, True], 'sim': {'randomize': 'no'}, 'controller': {'dt': '1/64', 'timesteps': rng.randint(2, 5)},
+            'integrators': integ, 'modules': mods, 'particles': parts, 'species_order': order, 'tag_columns': ({extra: ['q']} if extra else {})}
+
+
+def lj_family(rng, n, work, threads, summ):
+    for case in range(n):
+        sc = lj_scenario(rng)
+        runs = {}
+        for label, binary, T in [('s', SERIAL, None)] + [('o%d' % T, OMP, T) for T in threads[:3]]:
+            d = os.path.join(work, 'lj%d_%s' % (case, label))
+            if os.path.isdir(d): shutil.rmtree(d)
+            sc2 = dict(sc)
+            if T is not None: sc2['sim'] = dict(sc['sim'], nThreads=T)
+            symlib.write_case(d, sc2)
+            rc, out = symlib.run_sympler(d, binary, timeout=300)
+            runs[label] = (rc, symlib.parse_obs(os.path.join(d, 'obs.txt')) if rc == 0 and os.path.exists(os.path.join(d, 'obs.txt')) else None, out[-300:])
+            shutil.rmtree(d, ignore_errors=True)
+        if runs['s'][0] != 0:
+            summ['skipped']['lj serial run failed'] = summ['skipped'].get('lj serial run failed', 0) + 1
+            continue
+        summ['lj_cases'] = summ.get('lj_cases', 0) + 1
+        for label, (rc, st, out) in runs.items():
+            if label == 's': continue
+            summ['lj_omp_runs'] = summ.get('lj_omp_runs', 0) + 1
+            if rc != 0 or st is None:
+                summ['violations'].append(dict(case='lj%d' % case, T=label, oracle='omp-run', detail='OpenMP run of an LJ scenario failed rc=%s (serial run fine): %s' % (rc, out), scenario=sc))
+                break
+            bad = None
+            for a, b in zip(runs['s'][1], st):
+                for pa, pb in zip(a['particles'], b['particles']):
+                    for k in ('r', 'v'):
+                        for x, y in zip(pa[k], pb[k]):
+                            if abs(x - y) > F(1, 10 ** 9) * max(1, abs(x)):
+                                bad = 'step %d particle (c=%d,slot=%d) %s: serial %r OpenMP %r' % (a['step'], pa['colour'], pa['slot'], k, float(x), float(y))
+                    if bad: break
+                if bad: break
+            if bad:
+                summ['violations'].append(dict(case='lj%d' % case, T=label, oracle='serial-vs-omp', detail=bad, scenario=sc))
+                break
+
+
 def main(argv):
     global SERIAL, OMP
     seed, ncases = int(argv[1]), int(argv[2])
@@ -155,6 +229,7 @@ def main(argv):
     summ = dict(seed=seed, cases=0, omp_runs=0, states_compared=0, exact_states=0, assignment_links=0, partition_states=0, skipped={},
                 threads=threads, repeat=repeat, species_counts={}, modules={}, disagreements=[], violations=[])
     def skip(k): summ['skipped'][k] = summ['skipped'].get(k, 0) + 1
+    lj_family(random.Random(seed * 7 + 1), max(3, ncases), work, threads, summ)
     for case in range(ncases):
         gs = cd.gen_scenario(rng, None)
         if case % 2 == 1:
